@@ -1,6 +1,7 @@
 import MidnightZK.Proofs.C06.Edwards
 import MidnightZK.Proofs.C06.EdwardsChip
 import MidnightZK.Proofs.C06.Weierstrass
+import MidnightZK.Proofs.C06.Group
 import MidnightZK.Model.C06.Edwards
 import MidnightZK.Model.C06.Weierstrass
 import MidnightZK.Gen.C06Gates
@@ -276,7 +277,7 @@ theorem foreign_add_complete_sound [DecidableEq F] {b : F} (h2 : (2 : F) ≠ 0)
 
 /-- Non-vacuity: `p = −q` (the case the incomplete formulas cannot handle) is satisfiable with
 `r` flagged as the identity. -/
-example [DecidableEq F] (h10 : (1 : F) ≠ 0) :
+example [DecidableEq F] :
     AddHolds (⟨false, 2, 3⟩ : WP F) ⟨false, 2, -3⟩ ⟨true, 0, 0⟩ 0 0 := by
   refine ⟨by simp, by simp, ?_, ?_, ?_⟩
   · have : (3 : F) + -3 = 0 := by grind
@@ -301,5 +302,80 @@ theorem foreign_negate_sound [DecidableEq F] {b : F} (p : WP F) (hp : p.wf b) :
     · have : p.y + -p.y = 0 := by grind
       simp [wAdd, hpi, this]
     · simp [wAdd, hpi]
+
+/-! ## Multiplication algorithms of the foreign chip (any commutative group) -/
+
+section Group
+variable {G : Type} [AddCommGroup G]
+
+/-- **`mul_by_constant`, small constants**: the `u128` the code rebuilds from the (at most two)
+64-bit digits of a constant below `2^128` is the constant itself. (The pinned tree summed the
+digits; every constant in `[2^64, 2^128)` multiplied by the wrong integer — fixed by 8cb4393.) -/
+theorem u128_of_digits_eq (s : Nat) (h : s < 2 ^ 128) : WCurve.u128OfDigits s = s := by
+  unfold WCurve.u128OfDigits
+  have : s / 2 ^ 64 < 2 ^ 64 := by omega
+  rw [Nat.mod_eq_of_lt this]; omega
+
+/-- Non-vacuity / regression: `2^64`, whose digit sum is `1`. -/
+example : WCurve.u128OfDigits (2 ^ 64) = 2 ^ 64 ∧ (2 ^ 64) % 2 ^ 64 + (2 ^ 64 / 2 ^ 64) % 2 ^ 64 = 1 := by
+  decide
+
+/-- **`mul_by_u128`** (double-and-add from the least significant bit, accumulator absent until
+the first set bit): with `add`/`double` computing the group operations, the loop returns `n·p`
+for every `n` that fits the fuel, and the accumulator is present whenever `n > 0`. -/
+theorem mul_by_u128_sound (fuel n : Nat) (p : G) (h : n < 2 ^ fuel) :
+    optVal (WCurve.mulLsbG (· + ·) (fun x => x + x) fuel n p none) = n • p ∧
+    (0 < n → (WCurve.mulLsbG (· + ·) (fun x => x + x) fuel n p none).isSome = true) := by
+  refine ⟨?_, mulLsbG_isSome fuel n p none h⟩
+  rw [mulLsbG_val fuel n p none h]; simp [optVal]
+
+/-- Non-vacuity: `13·p` in ℤ. -/
+example : optVal (WCurve.mulLsbG (· + ·) (fun x => x + x) 4 13 (5 : ℤ) none) = 65 := by decide
+
+/-- **`windowed_msm`**: start from `l·R` (`R` the prover-chosen blinding point, `l` the number of
+bases); every iteration doubles `ws` times and adds, for each base `j`, the table entry
+`k_j·P_j − α` with `α = (2^ws − 1)·R`; finally `l·R` is subtracted. The result is
+`Σ_j s_j·P_j` with `s_j` the integer whose base-`2^ws` digits (most significant first) are the
+windows — **for every `R`**: the blinding cancels identically, so the prover's choice of `R`
+cannot change the result. -/
+theorem windowed_msm_sound (ws l : Nat) (R : G) (P : Nat → G) (rows : List (Nat → Nat)) :
+    rows.foldl (windowStep ws l ((2 ^ ws - 1) • R) P) (l • R) - l • R
+      = dotN l (combine ws (fun _ => 0) rows) P := by
+  have h0 : l • R = l • R + dotN l (fun _ => 0) P := by simp [dotN]
+  rw [h0, windowed_fold]; simp
+
+/-- Non-vacuity: one base, windows `[1, 2]` of 4 bits: the scalar is `18`. -/
+example : combine 4 (fun _ => 0) [fun _ => 1, fun _ => 2] 0 = 18 := by decide
+
+/-- **GLV re-check** (`glv_split`): the circuit asserts `x = ±x₁ + ζ·(±x₂)` in the scalar field
+and uses `P₁ = ±P`, `P₂ = ±φ(P)` with `φ(P) = (ζ_base·x, y) = ζ·P`; then
+`x·P = x₁·P₁ + x₂·P₂` whatever half-size scalars and signs the prover supplies: the off-circuit
+decomposition `glv_scalar_decomposition` is a hint that is fully re-checked. -/
+theorem glv_recheck_sound (P φP : G) (x x1 x2 ζ : ℤ) (s1 s2 : Bool) (hφ : φP = ζ • P)
+    (hx : x • P = ((if s1 then x1 else -x1) + ζ * (if s2 then x2 else -x2)) • P) :
+    x • P = x1 • (if s1 then P else -P) + x2 • (if s2 then φP else -φP) :=
+  glv_recombine P φP x x1 x2 ζ s1 s2 hφ hx
+
+/-- Non-vacuity in ℤ: `P = 1`, `ζ = 7`, `x = 3 − 7·2`. -/
+example : ((-11 : ℤ)) • (1 : ℤ) = 3 • (if true then (1:ℤ) else -1) + 2 • (if false then (7:ℤ) else -7) := by
+  decide
+
+end Group
+
+/-- The endomorphism constants of the running code are cube roots of unity different from 1 in
+the base and scalar fields of both emulated curves (`ζ³ = 1`, `ζ ≠ 1`), as `glv_split` needs. -/
+theorem glv_constants_cube_roots :
+    powMod Gen.secpBaseZeta 3 Gen.secpP = 1 ∧ Gen.secpBaseZeta ≠ 1 ∧
+    powMod Gen.secpScalarZeta 3 Gen.secpR = 1 ∧ Gen.secpScalarZeta ≠ 1 ∧
+    powMod Gen.blsBaseZeta 3 Gen.blsP = 1 ∧ Gen.blsBaseZeta ≠ 1 ∧
+    powMod Gen.blsScalarZeta 3 Gen.blsR = 1 ∧ Gen.blsScalarZeta ≠ 1 := by decide +kernel
+
+/-- Curve coefficients of the emulated curves as the running code has them (`a = 0`, `b = 7`
+and `b = 4`), and the four EC gates carry one polynomial per auxiliary modulus plus the native
+one. -/
+theorem foreign_curve_constants :
+    Gen.secpA = 0 ∧ Gen.secpB = 7 ∧ Gen.blsA = 0 ∧ Gen.blsB = 4 ∧
+    Gen.secpEcGatePolys = List.replicate 4 (Gen.secpModuli.length + 1) ∧
+    Gen.blsEcGatePolys = List.replicate 4 (Gen.blsModuli.length + 1) := by decide +kernel
 
 end MidnightZK.C06
